@@ -91,6 +91,32 @@ Theorem C10_tag_eq_is_field_eq h i a p i' a' p' :
   VMeaning.py_lower i = VMeaning.py_lower i' /\ VMeaning.py_lower a = VMeaning.py_lower a' /\ VMeaning.py_lower p = VMeaning.py_lower p'.
 Proof. exact (C14.C14_tag_case_insensitive h i a p i' a' p'). Qed.
 Print Assumptions C10_tag_eq_is_field_eq.
+(* ... hence == on tags is an equivalence, and equal tags carry the same stored hash *)
+Theorem C10_tag_eq_equivalence h i a p i2 a2 p2 i3 a3 p3 :
+  let x := WheelModel.mk_tag i a p in let y := WheelModel.mk_tag i2 a2 p2 in let z := WheelModel.mk_tag i3 a3 p3 in
+  WheelModel.tag_eq h x x = true /\ WheelModel.tag_eq h x y = WheelModel.tag_eq h y x /\
+  (WheelModel.tag_eq h x y = true -> WheelModel.tag_eq h y z = true -> WheelModel.tag_eq h x z = true).
+Proof.
+  cbv zeta. split; [|split].
+  - apply (C14.C14_tag_case_insensitive h i a p i a p). repeat split; reflexivity.
+  - apply Bool.eq_true_iff_eq. rewrite !C14.C14_tag_case_insensitive. split; intros (A & B & C); repeat split; congruence.
+  - rewrite !C14.C14_tag_case_insensitive. intros (A & B & C) (A' & B' & C'). repeat split; congruence.
+Qed.
+Print Assumptions C10_tag_eq_equivalence.
+Theorem C10_tag_hash h x y : WheelModel.tag_eq h x y = true ->
+  h (WheelModel.t_interp x, WheelModel.t_abi x, WheelModel.t_plat x) = h (WheelModel.t_interp y, WheelModel.t_abi y, WheelModel.t_plat y).
+Proof. unfold WheelModel.tag_eq. intros H. apply andb_prop in H as [H _]. apply andb_prop in H as [H _]. apply andb_prop in H as [H _]. now apply N.eqb_eq in H. Qed.
+Print Assumptions C10_tag_hash.
+(* Marker == (equality of the canonical strings) is an equivalence *)
+Theorem C10_marker_eq_equivalence a b c : MkModel.marker_eq a a = true /\ MkModel.marker_eq a b = MkModel.marker_eq b a /\
+  (MkModel.marker_eq a b = true -> MkModel.marker_eq b c = true -> MkModel.marker_eq a c = true).
+Proof.
+  split; [|split].
+  - now apply C09.C09_eq_is_str_eq.
+  - apply Bool.eq_true_iff_eq. rewrite !C09.C09_eq_is_str_eq. split; congruence.
+  - rewrite !C09.C09_eq_is_str_eq. congruence.
+Qed.
+Print Assumptions C10_marker_eq_equivalence.
 
 (* ---------------- SpecifierSet ---------------- *)
 (* Model SetsModel: __eq__ = equality of the member frozensets (set_eqb), __hash__ = hash(self._specs).  fs_ok = "no two equal members",
